@@ -41,12 +41,13 @@ macro_rules! properties {
 properties! {
     "C01" => c01,
     "C02" => c02,
+    "C03" => c03,
     "C11" => c11,
 }
 
 pub fn probes(ctx: &Ctx, id: &str) -> Vec<Probe> {
-    let _ = ctx;
     match id {
+        "C03" => c03::probes(ctx),
         _ => vec![],
     }
 }
